@@ -289,6 +289,9 @@ def run(ctx: common.Ctx):
             ctx.violation("calls:generated-code-value-differs", f"case {ci}: generated code for the graph with calls differs",
                           {"case": ci, "seed": ctx.seed, "info": info})
     ctx.note_batch("generated-code-of-graphs-with-calls", len(jobs), cdis, exhaustive=False)
+    # (4) structure: the call model of PtModel/CallsMulti.lean vs the real trace_call / inline_calls / tag_all
+    from . import c12_struct
+    c12_struct.run_struct(ctx)
     ctx.broken = sorted(set(ctx.broken))[:50]
 
 
